@@ -19,6 +19,13 @@ from sim.runner import violation
 BITWISE_TH = ('Mie', 'MieFar', 'Multisphere', 'Tmatrix', 'auto', 'classMie')
 
 
+def canon_key(rec):
+    ra = rec['rargs']
+    return json.dumps({'sc': ra.get('sc'), 'th': ra.get('th'),
+                       'kind': ra.get('kind'), 'optics': ra.get('optics')},
+                      sort_keys=True)
+
+
 class C07:
     ID = 'C07'
     TITLE = 'Pixel value depends only on position: grids, points, crops, subsets'
@@ -104,6 +111,8 @@ class C07:
             tags = {'k': tk + '/' + sk, 'ref': True, 'pair': pi,
                     'tk': tk}
             tags.update(extra_tags or {})
+            if tags.get('ref') is False:
+                tags.pop('ref')
             return b.emit('calc', {'kind': kind, 'det': det, 'sc': sh,
                                    'th': thh, 'optics': alt if oi else None,
                                    'scaling': 1.0 if kind == 'holo' else None},
@@ -125,7 +134,8 @@ class C07:
             kind = rng.choice(['holo', 'holo', 'field', 'intensity'])
             route = rng.choice(['full', 'points', 'subset_calc',
                                 'calc_subset', 'crop_calc', 'calc_crop',
-                                'subset_only', 'subset_only', 'subset_none'])
+                                'subset_only', 'subset_only', 'subset_none',
+                                'tilted'])
             img = state['img']
             oi = 1 if (use_alt and rng.random() < 0.4) else 0
             if (pi, kind, oi) not in state['full'] or route == 'full':
@@ -137,6 +147,28 @@ class C07:
             full = state['full'][(pi, kind, oi)]
             k = rng.choice([1, tot, rng.randint(1, tot), rng.randint(1, tot)])
             seed = rng.choice(seeds + [None, rng.randrange(10 ** 6)])
+            if route == 'tilted':
+                # explicit points on a minutely tilted plane: the group is
+                # either refused or gives, at each point, what that point
+                # gives on its own
+                tilt = rng.choice([1e-6, 1e-7, 3e-6, 1e-9]) * \
+                    rng.choice([1, -1])
+                ps = rng.randrange(10 ** 6)
+                kk = rng.randint(min(3, tot), max(min(3, tot), min(tot, 12)))
+                grp = len(b.events)
+                pts = b.emit('points_from_grid',
+                             {'det': img, 'perm_seed': ps, 'k': kk,
+                              'tilt': tilt}, store='pts')
+                calc(pts, pi, kind, extra_tags={'route': 'tilted-group',
+                                                'grp': grp, 'ref': False})
+                for j in rng.sample(range(kk), min(kk, 3)):
+                    p1 = b.emit('points_from_grid',
+                                {'det': img, 'perm_seed': ps, 'k': kk,
+                                 'tilt': tilt, 'only': [j]}, store='pts')
+                    calc(p1, pi, kind, extra_tags={'route': 'tilted-single',
+                                                   'grp': grp, 'j': j,
+                                                   'ref': False})
+                continue
             if route == 'points':
                 pts = b.emit('points_from_grid',
                              {'det': img, 'perm_seed': rng.randrange(10 ** 6),
@@ -240,6 +272,53 @@ class C07:
                 seen += 1
             return None
 
+        tilted = {}
+        for ev in ex.run['events']:
+            tg = ev.get('tags', {})
+            if tg.get('route') in ('tilted-group', 'tilted-single'):
+                rec = ex.records.get(ev['id'])
+                if rec and rec['outcome'] == 'ok' and O.is_da(
+                        rec.get('payload')):
+                    d = tilted.setdefault((tg['grp'], canon_key(rec)), {})
+                    d.setdefault(tg['route'], []).append((ev, rec))
+        for (_, _), d in tilted.items():
+            for gev, grec in d.get('tilted-group', []):
+                gp = grec['payload']
+                gvals = np.moveaxis(gp['values'],
+                                    gp['dims'].index('point'), 0)
+                gdet = ex.records.get(grec['rargs']['det'].get('ref'))
+                if not gdet or gdet['outcome'] != 'ok':
+                    continue
+                gpts = O.as_points(gdet['payload'])[0]
+                for sev, srec in d.get('tilted-single', []):
+                    sdet = ex.records.get(srec['rargs']['det'].get('ref'))
+                    if not sdet or sdet['outcome'] != 'ok':
+                        continue
+                    spts = O.as_points(sdet['payload'])[0]
+                    if len(spts) != 1:
+                        continue
+                    hit = [i for i in range(len(gpts))
+                           if gpts[i].tobytes() == spts[0].tobytes()]
+                    if len(hit) != 1 or hit[0] >= len(gvals):
+                        continue
+                    j = hit[0]
+                    sp_ = srec['payload']
+                    sv = np.moveaxis(sp_['values'],
+                                     sp_['dims'].index('point'), 0)[0]
+                    ex.stats['oracle_sim'] += 1
+                    scale = max(1.0, float(np.max(np.abs(sv))))
+                    err = float(np.max(np.abs(gvals[j] - sv))) / scale
+                    mx = ex.stats.setdefault('maxerr', {})
+                    mx['tilted'] = max(mx.get('tilted', 0.0), err)
+                    if err > 1e-9:
+                        ex.add(violation(
+                            'C07.value', gev['id'],
+                            'the point %r of a slightly tilted point list '
+                            'gives %.3g (relative) another value inside the '
+                            'list than on its own' % (
+                                gpts[j].tolist(), err),
+                            sig='C07.value:tilted'))
+                        break
         for ev in ex.run['events']:
             rec = ex.records.get(ev.get('id'))
             if not rec or rec['outcome'] != 'ok':
